@@ -30,9 +30,36 @@ type fieldScenario struct {
 	units   []uint8
 }
 
+// serverFamilies: addresses that differ only a little -- by leading characters out of "tcp:/", by a
+// "tcp://" prefix, by case, by leading / trailing spaces, by one character anywhere.  The group key
+// must be the exact string.
+var serverFamilies = [][]string{
+	{"tc1:502", "pc1:502", "c1:502", "1:502", "ttc1:502"},
+	{"tcp://cpu-a:5020", "tcp://pu-a:5020", "cpu-a:5020", "u-a:5020", "tcp://tcp://cpu-a:5020"},
+	{"tcp://a", "tcp:/a", "a", "p://a", "/a", ":a", "tcp://"},
+	{"host:502", "Host:502", "HOST:502", "hOst:502"},
+	{"host:502", " host:502", "host:502 ", " host:502 ", "host :502"},
+	{"plc-1:502", "plc-2:502", "plc-1:503", "qlc-1:502", "plc-1:5020", "plc_1:502"},
+	{"udp://x:1", "tcp://x:1", "x:1", "cp://x:1", "//x:1"},
+	{"p", "c", "t", "tp", "pt", ":", "/"},
+}
+
 func genScenario(r *rng) fieldScenario {
 	var sc fieldScenario
 	ns := 1 + r.intn(3)
+	if r.intn(3) == 0 { // near-identical server addresses, few unit ids: the keys must stay apart
+		fam := serverFamilies[r.intn(len(serverFamilies))]
+		ns = 2 + r.intn(2)
+		start := r.intn(len(fam))
+		for i := 0; i < ns; i++ {
+			sc.servers = append(sc.servers, fam[(start+i*(1+r.intn(2)))%len(fam)])
+		}
+		sc.units = []uint8{builderUnits[r.intn(len(builderUnits))]}
+		if r.intn(3) == 0 {
+			sc.units = append(sc.units, builderUnits[r.intn(len(builderUnits))])
+		}
+		return sc
+	}
 	perm := r.intn(len(builderServers))
 	for i := 0; i < ns; i++ {
 		sc.servers = append(sc.servers, builderServers[(perm+i*(1+r.intn(3)))%len(builderServers)])
@@ -324,6 +351,20 @@ func mkField(i int, server string, unit uint8, addr uint16, typ modbus.FieldType
 
 // splitCorpus: witnesses of the repaired defects and boundary constellations, all 8 targets
 func splitCorpus() {
+	for t := 0; t < 8; t += 3 {
+		ty := modbus.FieldTypeUint16
+		if t < 4 {
+			ty = modbus.FieldTypeCoil
+		}
+		for _, fam := range serverFamilies {
+			for i := range fam {
+				for j := range fam {
+					splitCase(t, []modbus.Field{mkField(0, fam[i], 1, 10, ty, 0), mkField(1, fam[j], 1, 11, ty, 0),
+						mkField(2, fam[i], 1, 12, ty, 0)}, false)
+				}
+			}
+		}
+	}
 	for t := 0; t < 8; t++ {
 		single := modbus.FieldTypeUint16
 		wide := modbus.FieldTypeUint64
